@@ -125,10 +125,23 @@ def command_case(draw, tier='quick'):
                                      ['rep 1.txt', 'rep.1.txt'],
                                      ['rep_1.txt', 'rep 1.txt']]))
         texts[0]['name'], texts[1]['name'] = pair
+    two_dirs = False
+    if len(texts) >= 2 and not texts[0]['name'].startswith('rep') and draw(
+            st.integers(0, 4)) == 0:
+        # two outputs with one base name, in two directories, named
+        # explicitly; one plain ASCII, the other not
+        texts[0]['dir'], texts[1]['dir'] = 'da', 'db'
+        texts[1]['name'] = texts[0]['name']
+        texts[0]['lines'] = [ln.encode('ascii', 'ignore').decode()
+                             for ln in texts[0]['lines']] + ['plain ascii']
+        texts[1]['lines'] = texts[1]['lines'] + ['d\u00e9j\u00e0 vu']
+        two_dirs = True
     exit_code = draw(st.sampled_from([0, 0, 0, 1, 2, 3]))
     how = draw(st.sampled_from(HOWS))
     if not files:
         how = 'default'
+    if two_dirs:
+        how = 'explicit'
     if how == 'glob' and any('.' not in f['name'] for f in files):
         how = 'explicit'    # no extension to build a sensible glob from
     n_iter = draw(st.sampled_from([1, 2, 2, 2, 3]))
@@ -159,9 +172,11 @@ def valid_case(case):
                 return False
         names = set()
         for f in case['files']:
-            if f['name'].lower() in names or '/' in f['name']:
+            key = (f.get('dir') or '', f['name'].lower())
+            if key in names or '/' in f['name'] or f.get('dir') not in (
+                    None, 'da', 'db'):
                 return False
-            names.add(f['name'].lower())
+            names.add(key)
             if f['kind'] == 'text':
                 if not all(isinstance(x, str) and '\n' not in x
                            and '\r' not in x for x in f['lines']):
@@ -224,6 +239,9 @@ class Workdir(object):
                 self.outdir = os.path.join('..', OUTSIDE[case['how']])
         if self.outdir:
             os.makedirs(os.path.join(self.w, self.outdir), exist_ok=True)
+        for f in case['files']:
+            if f.get('dir'):
+                os.makedirs(os.path.join(self.w, f['dir']), exist_ok=True)
         self.write_payloads()
         self.write_cmd(case['exit'])
         self.bystanders = {}
@@ -273,6 +291,8 @@ class Workdir(object):
                 f.write(file_bytes(fl))
 
     def out_name(self, fl):
+        if fl.get('dir'):
+            return os.path.join(fl['dir'], fl['name'])
         return os.path.join(self.outdir, fl['name']) if self.outdir \
             else fl['name']
 
